@@ -77,7 +77,7 @@ func init() {
 		ID: "C05", Title: "Invalid programs are rejected and nothing of them runs", Level: "model_checking",
 		Units: []Unit{evalUnit([]string{"evaluator/common.go", "evaluator/c05.go"},
 			Harness{Fn: "ZZC05Reject", Expect: []string{"valid-runs", "rejected", "witness:end"}},
-		), mainUnit([]string{"main/c18.go", "main/c05m.go"},
+		), mainUnit([]string{"main/c18.go", "main/c18native.go", "main/c05m.go"},
 			Harness{Fn: "ZZC05CLI", Expect: []string{"cli-rejected", "cli-valid", "witness:end"}},
 		)},
 		Assumptions: []string{
@@ -114,7 +114,7 @@ func init() {
 			Harness{Fn: "ZZC06Corpus", Quick: p("PROP", 7), Thorough: p("PROP", 7), Expect: []string{"corpus-ok", "witness:end"}},
 			Harness{Fn: "ZZC06Gen", Quick: p("PROP", 7, "FD", 1, "FL0", 1, "FL1", 1), Thorough: p("PROP", 7, "FD", 2, "FL0", 1, "FL1", 1), ThoroughBudget: 25 * time.Minute, Expect: []string{"gen-ok", "witness:end"}},
 			Harness{Fn: "ZZC06GenFlat", Quick: p("PROP", 7, "FLAT", 3), Thorough: p("PROP", 7, "FLAT", 4), Expect: []string{"gen-ok", "witness:end"}},
-		), mainUnit([]string{"main/c18.go", "main/c07m.go"},
+		), mainUnit([]string{"main/c18.go", "main/c18native.go", "main/c07m.go"},
 			Harness{Fn: "ZZC07Check", Expect: []string{"check-ok", "witness:end"}},
 		)},
 		Assumptions: []string{"same inputs as C06; `evy fmt --check` through main.format and fmtCmd.Run on the model file system"},
